@@ -4,10 +4,11 @@ SPECIFICATION MCSpec
 CONSTANTS
  Recorders = {}
  Drainers = {}
+ LockedDrain = TRUE
  Scope = "scalar"
  MaxOps = 5
  RecLimit = 0
  DrainLimit = 0
  UpLimit = 0
-INVARIANTS TypeOK Conservation StrictConservation RenderFaithful NoLossSequential CounterMeaning HelpFirst RenderTwice LabelsOK
+INVARIANTS TypeOK Conservation StrictConservation RenderFaithful RenderBounds NoLossSequential CounterMeaning HelpFirst RenderTwice LabelsOK
 CHECK_DEADLOCK FALSE
